@@ -518,8 +518,27 @@ def str_method(I, s, name):
         # case mapping of a symbolic string: uninterpreted (ASCII-only inputs assumed by the contracts that use it)
         f = z3.Function("py_" + name, z3.StringSort(), z3.StringSort())
         return SStr(f(me.term), isb)
+    def just(I_, a, k):
+        """ljust/rjust(width, fill): exact model -- unchanged when len(s) >= width, else s padded by a string of
+        (width - len(s)) copies of the fill character"""
+        if conc(a):
+            return native(a, k)
+        if k or not a or len(a) > 2:
+            raise Undecided("str.%s with keyword arguments" % name)
+        w = to_z3_int(a[0])
+        fill = a[1] if len(a) > 1 else (b" " if isb else " ")
+        if not isinstance(fill, (bytes, str)) or len(fill) != 1:
+            raise Undecided("str.%s with a symbolic fill character" % name)
+        ch = fill.decode("latin-1") if isinstance(fill, bytes) else fill
+        n = z3.Length(me.term)
+        if not I.path.branch(n < w):
+            return s
+        pad = z3.String(fresh_name("padding"))
+        I.path.fact(z3.And(z3.Length(pad) == w - n, z3.InRe(pad, z3.Star(z3.Re(z3.StringVal(ch))))), "str.%s padding" % name)
+        return SStr(z3.Concat(me.term, pad) if name == "ljust" else z3.Concat(pad, me.term), isb)
+
     t = {"upper": upper, "lower": upper, "format": fmt, "strip": strip_like, "lstrip": strip_like, "rstrip": strip_like, "startswith": startswith, "endswith": endswith, "join": join, "find": find, "index": index,
-         "encode": enc, "decode": dec, "split": split}
+         "encode": enc, "decode": dec, "split": split, "ljust": just, "rjust": just}
     return MF("str." + name, t.get(name, generic))
 
 
